@@ -74,6 +74,11 @@ pub fn messages(thorough: bool) -> Vec<RMsg> {
                                                ("job-id".to_string(), RVal::Int(0x21, 9)), ("job-uri".to_string(), t(0x45, "x"))]),
                        (4, vec![("attributes-natural-language".to_string(), t(0x48, "fr"))])]));
     out.push(base(vec![(4, vec![("no-op-group".into(), kw("x"))])]));
+    // attribute and member names that are not ASCII (byte length != character count), names of 1 / 255 / 256 / 257 / 1024 bytes
+    out.push(base(vec![(1, op.clone()), (4, vec![("na\u{ef}ve-\u{540d}\u{524d}".into(), kw("v")), ("\u{1f5a8}".into(), RVal::Int(0x21, 1))])]));
+    for n in [1usize, 255, 256, 257, 1024] {
+        out.push(base(vec![(1, op.clone()), (4, vec![("n".repeat(n), kw("v")), ("k".into(), t(0x41, &"s".repeat(n)))])]));
+    }
     if thorough {
         out.push(base(vec![(1, op.clone()), (4, vec![("big".into(), t(0x41, &"z".repeat(65535)))])]));
         out.push(base(vec![(1, op), (4, vec![("n".repeat(65535), kw("v"))])]));
